@@ -641,8 +641,18 @@ fn search_term(t: &T, seed: u64, per: usize, st: &mut Stats) {
         let uusrc = format!("°°({src})");
         let (a, o) = (ti.sig.args(), ti.sig.outputs());
         st.by_depth[depth.min(5)] += 1;
-        for _ in 0..per {
-            let x = gen_args(&mut r, a);
+        // fixed corpus: the reproducing inputs of the known findings are exercised on every run
+        let mut fixed: Vec<Vec<Value>> = match name.as_str() {
+            "seq[dip(neg),join]" => vec![vec![num(&[1], &[4.0]), Value::from(3.0)]],
+            "seq[neg,sub2]" => vec![vec![chars(&[2], &[' ', '0'])]],
+            "seq[sub2,mul2]" => vec![vec![Value::from(7.0)]],
+            _ => vec![],
+        };
+        for _ in 0..per + fixed.len() {
+            let x = match fixed.pop() {
+                Some(x) => x,
+                None => gen_args(&mut r, a),
+            };
             st.evals += 1;
             // domain: the guarded term succeeds
             let y = match run_uiua_with(&gsrc, &x) {
@@ -857,6 +867,10 @@ fn main() {
             let d2 = depth2();
             let per = 6;
             let mut terms: Vec<T> = leaves();
+            let blk = |n: &str| T::B(BLOCKS.iter().position(|b| b.name == n).unwrap());
+            terms.push(T::Seq(vec![T::Dip(blk("neg").into()), blk("join")]));
+            terms.push(T::Seq(vec![blk("neg"), blk("sub2")]));
+            terms.push(T::Seq(vec![blk("sub2"), blk("mul2")]));
             let budget = n / (per * 2);
             // a stratified sample: all leaves, then depth-2 terms, then depth 3 and 4
             let mut i = 0;
@@ -870,7 +884,7 @@ fn main() {
             }
             for (k, t) in terms.iter().enumerate() {
                 let seed = r.next();
-                let per_t = if k < leaves().len() { per * 6 } else { per };
+                let per_t = if k < leaves().len() + 3 { per * 6 } else { per };
                 search_term(t, seed, per_t, &mut st);
             }
             search_anti(r.next(), (n / 40).max(20), &mut st);
